@@ -1795,7 +1795,15 @@ class PrepareAst:
                     default_body is None
                 ), "default branch must be last branch of match statement"
 
+                assert (
+                    case.guard is None
+                ), "guards (`case <pattern> if <condition>`) are not supported in match statements"
+
                 if isinstance(case.pattern, ast.MatchAs):
+                    assert (
+                        case.pattern.pattern is None
+                    ), "patterns of the form `<pattern> as <name>` are not supported in match statements"
+
                     default_body = cast(out.CodeBlock, self.apply(case.body))
                     break
                 if isinstance(case.pattern, ast.MatchValue):
